@@ -148,6 +148,7 @@ func analyse(x *Exec) *RunResult {
 			cnt["records_merged_by_coalescing"] += len(in.Merged)
 			cnt["records_dropped_by_overflow"] += len(in.Dropped)
 			cnt["overflow_episodes"] += in.Overflow
+			cnt["fault_F8-rename-halves-reordered"] += in.Reordered
 			cnt["reads"] += in.Reads
 			cnt["records_decoded_at_nonzero_offset"] += in.OffsetNZ
 			if in.MaxBatch > cnt["max_records_per_read"] {
